@@ -4,12 +4,16 @@
   Source facts: EinoV/Gen/FactsC14.lean (regenerated from /repo on every run).
 
   `srcCfg` is the model configuration built from the regenerated facts: the `concatFuncs`
-  table of internal/concat.go, whether `concatMaps` guards nil interface values, and the
-  presence of the conflict checks in `ConcatMessages` / `concatToolCalls`.  Every theorem is
-  about the model instantiated with `srcCfg`; `EqvE a b` = "equal results, or both errors".
-  The fuel `n` bounds the nesting depth of `map[string]any` values (`Err.fuel` is the
-  model's artefact for deeper nesting; `*_total` shows it is unreachable for `n` above the
-  nesting depth, and the laws hold for every `n`).
+  table of internal/concat.go, whether `concatMaps` guards nil interface values, whether that
+  guard tests `Kind() == Interface` before `IsNil()`, whether the recursion into nested maps
+  is decided by the kind of the values' type, whether `ConcatItems` handles a nil interface
+  result, and the presence of the conflict checks in `ConcatMessages` / `concatToolCalls`.
+  Every theorem is about the model instantiated with `srcCfg`; `EqvE a b` = "equal results,
+  or both errors".  Maps carry their element type (`map[string]any`, `map[string]string`,
+  `map[string]map[string]string`, … at every nesting level, as chunk type, under a key of a
+  `map[string]any` chunk and in `Message.Extra`).  The fuel `n` bounds the nesting depth of
+  map values (`Err.fuel` is the model's artefact for deeper nesting; `*_total` shows it is
+  unreachable for `n` above the nesting depth, and the laws hold for every `n`).
 -/
 import EinoV.Model.C14
 import EinoV.Proofs.C14
@@ -21,24 +25,30 @@ open EinoV.Gen
 
 /-- the model configuration read off the source tree -/
 def srcCfg : Cfg :=
-  Expected.C14.mkCfg FactsC14.concatFuncs FactsC14.nilGuard FactsC14.roleCheck FactsC14.nameCheck
+  Expected.C14.mkCfg FactsC14.concatFuncs FactsC14.nilGuard FactsC14.guardKindFirst FactsC14.recurseByKind
+    FactsC14.nilResultGuard FactsC14.roleCheck FactsC14.nameCheck
     FactsC14.tcidCheck FactsC14.tcIdCheck FactsC14.tcTypeCheck FactsC14.tcNameCheck
 
 /-! ## source-fact tie -/
 
 /-- The regenerated facts are the ones the oracle runs with: the `concatFuncs` table
     (string ↦ concatStrings, the numeric/bool/time types ↦ useLast, nothing else), the two
-    functions registered by schema's `init`, the nil guard of `concatMaps`, and all six
-    conflict checks. -/
+    functions registered by schema's `init`, the nil guard of `concatMaps`, its form
+    (`val.Kind() == reflect.Interface && val.IsNil()`: `IsNil` only ever sees interface
+    values), the recursion test (`….Type().Elem().Kind() == reflect.Map`: every map type
+    recurses, not only `map[string]any`), and all six conflict checks.  (`nilResultGuard` is
+    deliberately not here: see `concat_*_anys_partial`.) -/
 theorem facts_match :
     FactsC14.concatFuncs = Expected.C14.concatFuncs ∧
     FactsC14.registered = Expected.C14.registered ∧
     FactsC14.nilGuard = Expected.C14.nilGuard ∧
+    FactsC14.guardKindFirst = Expected.C14.guardKindFirst ∧
+    FactsC14.recurseByKind = Expected.C14.recurseByKind ∧
     FactsC14.roleCheck = true ∧ FactsC14.nameCheck = true ∧ FactsC14.tcidCheck = true ∧
     FactsC14.tcIdCheck = true ∧ FactsC14.tcTypeCheck = true ∧ FactsC14.tcNameCheck = true := by
   decide
 
-theorem srcCfg_eq_expected : srcCfg.table = Expected.C14.cfg.table ∧ srcCfg.nilAbsent = true := by
+theorem srcCfg_eq_expected : srcCfg.table = Expected.C14.cfg.table ∧ srcCfg.nilAbsent = true ∧ srcCfg.Std := by
   decide
 
 /-! ## totality: a value or an ordinary error, never a panic -/
@@ -50,7 +60,7 @@ theorem srcCfg_eq_expected : srcCfg.table = Expected.C14.cfg.table ∧ srcCfg.ni
 theorem concat_total (n : Nat) (cs : List (Option Msg))
     (hn : ∀ ms, allSome cs = some ms → extrasDepth ms < n) :
     (∃ m, concatMsgPtrs srcCfg n cs = .ok m) ∨ concatMsgPtrs srcCfg n cs = .error .fail :=
-  concatMsgPtrs_total srcCfg (by decide) n cs hn
+  concatMsgPtrs_total srcCfg (by decide) (by decide) n cs hn
 
 /-- no panic, for every fuel (no side condition at all) -/
 theorem concat_never_panics (n : Nat) (cs : List (Option Msg)) :
@@ -62,17 +72,25 @@ theorem concat_never_panics (n : Nat) (cs : List (Option Msg)) :
     intro he
     rcases concatMsgs_err srcCfg n ms _ he with h1 | h2
     · cases h1
-    · exact concatEvs_no_panic srcCfg (by decide) n _ h2
+    · exact concatEvs_no_panic srcCfg (by decide) (by decide) n _ _ h2
 
-/-- **concat_total (map[string]any chunks through the stream→value conversion).** -/
-theorem concat_total_maps (n : Nat) (ms : List KVs) (hn : depthKVs ms.flatten < n) :
-    (∃ m, concatMapChunks srcCfg n ms = .ok m) ∨ concatMapChunks srcCfg n ms = .error .fail := by
+/-- **concat_total (map chunks of every element type through the stream→value conversion):**
+    `map[string]any`, `map[string]string`, `map[string]int`, `map[string]S`,
+    `map[string]map[string]string`, `map[string][]string`, … (`et` = the element type), with
+    typed maps nested at any depth. -/
+theorem concat_total_maps (n : Nat) (et : String) (ms : List KVs) (hn : depthKVs ms.flatten < n) :
+    (∃ m, concatMapChunks srcCfg n et ms = .ok m) ∨ concatMapChunks srcCfg n et ms = .error .fail := by
   cases ms with
   | nil => exact Or.inr rfl
   | cons a t =>
     cases t with
     | nil => exact Or.inl ⟨a, rfl⟩
-    | cons b t' => exact concatMaps_total srcCfg (by decide) n _ hn
+    | cons b t' => exact concatMaps_total srcCfg (by decide) (by decide) n et _ hn
+
+/-- no panic for map chunks of any element type, for every fuel -/
+theorem concat_maps_never_panic (n : Nat) (et : String) (ms : List KVs) :
+    concatMaps srcCfg n et ms ≠ .error .panic :=
+  concatEvs_no_panic srcCfg (by decide) (by decide) n et _
 
 /-- **concat_total (string chunks).** -/
 theorem concat_total_strs (xs : List String) :
@@ -86,18 +104,19 @@ theorem concat_total_strs (xs : List String) :
 theorem concat_rechunk (n : Nat) (xs ys : List (Option Msg)) :
     EqvE (concatMsgPtrs srcCfg n xs >>= fun r => concatMsgPtrs srcCfg n (some r :: ys))
          (concatMsgPtrs srcCfg n (xs ++ ys)) :=
-  concatMsgPtrs_rechunk srcCfg n xs ys
+  concatMsgPtrs_rechunk srcCfg (by decide) n xs ys
 
 /-- **concat_rechunk (tool calls)**, as an equality. -/
 theorem concat_rechunk_toolcalls (xs ys : List TC) :
     (concatTC srcCfg xs >>= fun r => concatTC srcCfg (r ++ ys)) = concatTC srcCfg (xs ++ ys) :=
   concatTC_rechunk srcCfg xs ys
 
-/-- **concat_rechunk (maps, `concatMaps`)**: nested maps, per-key rules from the table,
-    nil values, type clashes. -/
-theorem concat_rechunk_maps (n : Nat) (xs ys : List KVs) :
-    EqvE (concatMaps srcCfg n xs >>= fun r => concatMaps srcCfg n (r :: ys)) (concatMaps srcCfg n (xs ++ ys)) :=
-  concatMaps_rechunk srcCfg n xs ys
+/-- **concat_rechunk (maps, `concatMaps`)**, for maps of every element type `et`: nested maps
+    of any map type (all of them recurse), per-key rules from the table, nil values, type
+    clashes. -/
+theorem concat_rechunk_maps (n : Nat) (et : String) (xs ys : List KVs) :
+    EqvE (concatMaps srcCfg n et xs >>= fun r => concatMaps srcCfg n et (r :: ys)) (concatMaps srcCfg n et (xs ++ ys)) :=
+  concatMaps_rechunk srcCfg (by decide) n et xs ys
 
 /-- **concat_rechunk through `concatStreamReader`** (empty stream = error, one chunk = that
     chunk untouched, otherwise `ConcatItems`) for string, map and message chunks. -/
@@ -105,29 +124,66 @@ theorem concat_rechunk_stream_strs (xs ys : List String) (h : xs ≠ []) :
     EqvE (concatStrChunks srcCfg xs >>= fun r => concatStrChunks srcCfg (r :: ys)) (concatStrChunks srcCfg (xs ++ ys)) :=
   concatStrChunks_rechunk srcCfg xs ys h
 
-theorem concat_rechunk_stream_maps (n : Nat) (xs ys : List KVs) (h : xs ≠ []) :
-    EqvE (concatMapChunks srcCfg n xs >>= fun r => concatMapChunks srcCfg n (r :: ys)) (concatMapChunks srcCfg n (xs ++ ys)) :=
-  concatMapChunks_rechunk srcCfg n xs ys h
+theorem concat_rechunk_stream_maps (n : Nat) (et : String) (xs ys : List KVs) (h : xs ≠ []) :
+    EqvE (concatMapChunks srcCfg n et xs >>= fun r => concatMapChunks srcCfg n et (r :: ys)) (concatMapChunks srcCfg n et (xs ++ ys)) :=
+  concatMapChunks_rechunk srcCfg (by decide) n et xs ys h
 
 theorem concat_rechunk_stream_msgs (n : Nat) (xs ys : List (Option Msg)) (h : xs ≠ []) :
     EqvE (concatMsgChunks srcCfg n xs >>= fun r => concatMsgChunks srcCfg n (r :: ys)) (concatMsgChunks srcCfg n (xs ++ ys)) :=
-  concatMsgChunks_rechunk srcCfg n xs ys h
+  concatMsgChunks_rechunk srcCfg (by decide) n xs ys h
 
 theorem concat_rechunk_stream_arrays (n : Nat) (xs ys : List (List (Option Msg))) (h : xs ≠ []) :
     EqvE (concatArrChunks srcCfg n xs >>= fun r => concatArrChunks srcCfg n (r :: ys)) (concatArrChunks srcCfg n (xs ++ ys)) :=
-  concatArrChunks_rechunk srcCfg n xs ys h
+  concatArrChunks_rechunk srcCfg (by decide) n xs ys h
 
 /-- `[]*Message` chunks (position-wise `concatMessageArray`) never panic either: `mas[0]` is
     only evaluated on at least two arrays. -/
 theorem concat_arrays_never_panic (n : Nat) (xs : List (List (Option Msg))) :
     concatArrChunks srcCfg n xs ≠ .error .panic :=
-  concatArrChunks_no_panic srcCfg (by decide) n xs
+  concatArrChunks_no_panic srcCfg (by decide) (by decide) n xs
 
 /-- **the fuel is a proof device only**: any two fuels above the nesting depth of the extras
     give the same result (so `concat_total` and `concat_rechunk` speak about one function). -/
 theorem fuel_irrelevant (n m : Nat) (ms : List Msg) (hn : extrasDepth ms < n) (hm : extrasDepth ms < m) :
     concatMsgs srcCfg n ms = concatMsgs srcCfg m ms :=
-  concatMsgs_fuel_irrelevant srcCfg n m ms hn hm
+  concatMsgs_fuel_irrelevant srcCfg (by decide) n m ms hn hm
+
+/-! ## chunks of type `any` (`ConcatItems` with an interface element type)
+
+  `concatSliceValue` on `[]any`: nothing registered, zero ⇔ nil interface: all chunks nil → the
+  nil interface; one non-nil chunk → it; more → error.  On a tree whose `ConcatItems` does not
+  handle the nil interface result (`FactsC14.nilResultGuard = false`) the all-nil case panics
+  in `cv.Interface().(T)` (genuine defect, known_findings/C14.json, fixes/C14-nil-interface-result.diff),
+  so the two clauses are stated with the explicit hypothesis that excludes it — satisfied
+  outright once the fact is `true` — next to the negation witness. -/
+
+/-- full statement: `∀ xs, (∃ v, concatAnyChunks srcCfg xs = .ok v) ∨ … = .error .fail`; proved
+    for: the guard is present, or some chunk is non-nil, or there are fewer than two chunks -/
+theorem concat_total_anys_partial (xs : List XVal)
+    (h : FactsC14.nilResultGuard = true ∨ (∃ x ∈ xs, x.isNil = false) ∨ xs.length < 2) :
+    (∃ v, concatAnyChunks srcCfg xs = .ok v) ∨ concatAnyChunks srcCfg xs = .error .fail :=
+  concatAnyChunks_total srcCfg xs h
+
+/-- full statement: the law for every non-empty `xs`; proved for: the guard is present, or
+    the prefix holds a non-nil chunk -/
+theorem concat_rechunk_stream_anys_partial (xs ys : List XVal) (hxs : xs ≠ [])
+    (h : FactsC14.nilResultGuard = true ∨ ∃ x ∈ xs, x.isNil = false) :
+    EqvE (concatAnyChunks srcCfg xs >>= fun r => concatAnyChunks srcCfg (r :: ys)) (concatAnyChunks srcCfg (xs ++ ys)) :=
+  concatAnyChunks_rechunk srcCfg xs ys hxs h
+
+/-- the excluded case is real: without the guard two nil chunks panic, and the panic depends
+    on the split (`[nil, nil] ++ ["a"]` at once is `"a"`) -/
+theorem any_all_nil_panics_without_guard :
+    isPanic (concatAnyChunks { Expected.C14.cfg with nilResultGuard := false } [.nil, .nil]) = true ∧
+    (match concatAnyChunks { Expected.C14.cfg with nilResultGuard := false } [.nil, .nil, .sc "string" "a"] with
+      | .ok (.sc "string" "a") => true
+      | _ => false) = true := by decide
+
+/-- … and with it they concatenate to nil -/
+theorem any_all_nil_ok_with_guard :
+    (match concatAnyChunks Expected.C14.cfg [.nil, .nil] with
+      | .ok .nil => true
+      | _ => false) = true := by decide
 
 /-! ## arrival order and grouping by index -/
 
@@ -163,14 +219,14 @@ private def msg (content : String) (tcs : List TC) (extra : KVs) : Msg :=
     interleaved and out of order, a nil-index call, nested extras with a nil value) -/
 example :
     (match concatMsgPtrs Expected.C14.cfg 3
-        [some (msg "He" [tc (some 1) "b" "g" "{\"y\"", tc none "n" "h" "z"] [("k", .sc "string" "a"), ("m", .map [("x", .nil)])]),
-         some (msg "llo" [tc (some 0) "a" "f" "{\"x\":", tc (some 1) "" "" ":2}"] [("k", .sc "string" "b"), ("m", .map [("x", .sc "int" "7")])]),
+        [some (msg "He" [tc (some 1) "b" "g" "{\"y\"", tc none "n" "h" "z"] [("k", .sc "string" "a"), ("m", .map "any" [("x", .nil)])]),
+         some (msg "llo" [tc (some 0) "a" "f" "{\"x\":", tc (some 1) "" "" ":2}"] [("k", .sc "string" "b"), ("m", .map "any" [("x", .sc "int" "7")])]),
          some (msg "" [tc (some 0) "" "" "1}"] [])] with
       | .ok m => m.content == "Hello" &&
                  m.toolCalls.map (fun t => (t.index, t.id, t.name, t.args)) ==
                    [(none, "n", "h", "z"), (some 0, "a", "f", "{\"x\":1}"), (some 1, "b", "g", "{\"y\":2}")] &&
                  (match m.extra with
-                  | [("k", .sc "string" "ab"), ("m", .map [("x", .sc "int" "7")])] => true
+                  | [("k", .sc "string" "ab"), ("m", .map "any" [("x", .sc "int" "7")])] => true
                   | _ => false)
       | .error _ => false) = true := by decide
 
@@ -194,5 +250,68 @@ theorem nil_extra_ok_with_guard :
     (match concatMsgPtrs Expected.C14.cfg 2 [some (msg "" [] [("k", .nil)]), some (msg "" [] [("k", .sc "int" "1")])] with
       | .ok m => (match m.extra with | [("k", .sc "int" "1")] => true | _ => false)
       | .error _ => false) = true := by decide
+
+/-! ## typed maps: non-vacuity and the negations for the other values of the two facts -/
+
+/-- typed maps concatenate: `map[string]string` chunks join their values, a
+    `map[string]string` nested in `Extra` under one key in three chunks recurses, a
+    `map[string]map[string]string` recurses twice, `map[string]S` keeps the single non-zero
+    struct, `map[string]int` keeps the last value -/
+example :
+    (match concatMapChunks Expected.C14.cfg 3 "string" [[("k", .sc "string" "a")], [("k", .sc "string" "b"), ("j", .sc "string" "")], []] with
+      | .ok [("k", .sc "string" "ab"), ("j", .sc "string" "")] => true
+      | _ => false) = true ∧
+    (match concatMsgPtrs Expected.C14.cfg 3
+        [some (msg "" [] [("l", .map "string" [("x", .sc "string" "a")]), ("n", .nil)]),
+         some (msg "" [] [("l", .map "string" [("x", .sc "string" "b")])]),
+         some (msg "" [] [("l", .map "string" [("y", .sc "string" "c")])])] with
+      | .ok m => (match m.extra with
+                  | [("l", .map "string" [("x", .sc "string" "ab"), ("y", .sc "string" "c")]), ("n", .nil)] => true
+                  | _ => false)
+      | .error _ => false) = true ∧
+    (match concatMapChunks Expected.C14.cfg 4 "map[string]string"
+        [[("k", .map "string" [("x", .sc "string" "a")])], [("k", .map "string" [])], [("k", .map "string" [("x", .sc "string" "b")])]] with
+      | .ok [("k", .map "string" [("x", .sc "string" "ab")])] => true
+      | _ => false) = true ∧
+    (match concatMapChunks Expected.C14.cfg 3 "c14S" [[("k", .sc "c14S" "")], [("k", .sc "c14S" "p")]] with
+      | .ok [("k", .sc "c14S" "p")] => true
+      | _ => false) = true ∧
+    isFail (concatMapChunks Expected.C14.cfg 3 "c14S" [[("k", .sc "c14S" "q")], [("k", .sc "c14S" "p")]]) = true ∧
+    (match concatMapChunks Expected.C14.cfg 3 "int" [[("k", .sc "int" "1")], [("k", .sc "int" "2")]] with
+      | .ok [("k", .sc "int" "2")] => true
+      | _ => false) = true := by decide
+
+/-- a `map[string]string` and a `map[string]any` under one key: ordinary error (type clash) -/
+example : isFail (concatMapChunks Expected.C14.cfg 3 "any"
+    [[("k", .map "string" [("x", .sc "string" "a")])], [("k", .map "any" [("x", .sc "string" "a")])]]) = true := by decide
+
+/-- If the nil guard of `concatMaps` called `val.IsNil()` without testing
+    `val.Kind() == reflect.Interface` first, totality would be false: two `map[string]string`
+    chunks panic (`reflect: call of reflect.Value.IsNil on string Value`), as does a
+    `map[string]string` nested in `Extra` under a key present in two chunks. -/
+theorem typed_map_panics_with_unconditional_isnil :
+    isPanic (concatMapChunks { Expected.C14.cfg with guardKindFirst := false } 3 "string"
+      [[("k", .sc "string" "a")], [("k", .sc "string" "b")]]) = true ∧
+    isPanic (concatMapChunks { Expected.C14.cfg with guardKindFirst := false } 3 "c14S"
+      [[("k", .sc "c14S" "")], [("k", .sc "c14S" "p")]]) = true ∧
+    isPanic (concatMsgPtrs { Expected.C14.cfg with guardKindFirst := false } 3
+      [some (msg "" [] [("l", .map "string" [("x", .sc "string" "a")])]),
+       some (msg "" [] [("l", .map "string" [("x", .sc "string" "b")])])]) = true := by decide
+
+/-- If `concatMaps` recursed only into `map[string]any` values (instead of testing the kind
+    of the values' type), re-chunking invariance would be false: a `map[string]string` under
+    one key in two chunks is an error, while the same data in one chunk (plus an empty one)
+    concatenates. -/
+theorem typed_nested_map_rechunk_breaks_without_kind_test :
+    isFail (concatMapChunks { Expected.C14.cfg with recurseByKind := false } 3 "any"
+      [[("k", .map "string" [("x", .sc "string" "a")])], [("k", .map "string" [("y", .sc "string" "b")])]]) = true ∧
+    (match concatMapChunks { Expected.C14.cfg with recurseByKind := false } 3 "any"
+      [[("k", .map "string" [("x", .sc "string" "a"), ("y", .sc "string" "b")])], []] with
+      | .ok [("k", .map "string" [("x", .sc "string" "a"), ("y", .sc "string" "b")])] => true
+      | _ => false) = true ∧
+    (match concatMapChunks Expected.C14.cfg 3 "any"
+      [[("k", .map "string" [("x", .sc "string" "a")])], [("k", .map "string" [("y", .sc "string" "b")])]] with
+      | .ok [("k", .map "string" [("x", .sc "string" "a"), ("y", .sc "string" "b")])] => true
+      | _ => false) = true := by decide
 
 end EinoV.C14
